@@ -18,14 +18,14 @@
 #include "types.h"
 #define signed(x) ((signed)(x))
 
-/*@unit {'name':'c16_checktable_guard', 'props':['C16'], 'entry':'h_guard', 'enforce':'CheckTable_guard',
+/*@unit {'name':'c16_checktable_guard', 'props':['C16','C01'], 'entry':'h_guard', 'enforce':'CheckTable_guard',
          'claims':'TtfUtil::CheckTable refuses a NULL table and any table shorter than 4 bytes before looking at it (first statement of the function): the premise under which Face::Table may read the version word'}@*/
 /*@unit {'name':'c16_release', 'props':['C16'], 'entry':'h_release', 'enforce':'Table_release',
          'claims':'Table::release: a borrowed table is handed to release_table exactly once (not at all when the client gave no release_table), a decompressed block the table owns is freed and never handed to the client, an empty table calls nothing; afterwards _p == 0, _sz == 0 and nothing is outstanding'}@*/
-/*@unit {'name':'c16_decompress', 'props':['C14','C16'], 'entry':'h_decompress', 'enforce':'Table_decompress', 'replace':['lz4_decompress'], 'checks':['--memory-leak-check'],
+/*@unit {'name':'c16_decompress', 'props':['C14','C16','C01'], 'entry':'h_decompress', 'enforce':'Table_decompress', 'replace':['lz4_decompress'], 'checks':['--memory-leak-check'],
          'replay':'c16_table', 'witness_defines':['WITNESS'], 'witness_vars':['w_sz','w_b','w_has_release','w_lz4_ret'],
          'claims':'Table::decompress: tables shorter than 20 bytes are an error and stay untouched; scheme = top 5 bits of the second word, 0 leaves the table as it is; any other scheme but LZ4 is an error; for LZ4 the decoder is called on exactly the bytes after the two header words with an output buffer of exactly the announced 27-bit size (its preconditions hold), and the result is accepted only if the decoded length equals the announced size and the first decoded word equals the version word; on every path the borrowed table is released exactly once (never for scheme 0 / short tables, which keep it), it is not read after its release, the scratch buffer is freed on failure (no leak) and the typestate holds on return'}@*/
-/*@unit {'name':'c16_ctor', 'props':['C16'], 'entry':'h_ctor', 'enforce':'Table_ctor', 'replace':['CheckTable','Table_decompress'],
+/*@unit {'name':'c16_ctor', 'props':['C16','C01'], 'entry':'h_ctor', 'enforce':'Table_ctor', 'replace':['CheckTable','Table_decompress'],
          'claims':'Table(face,tag,version): exactly one get_table call; if CheckTable refuses the table it is released before the constructor returns and the Table is empty; otherwise the version word is read inside the table (>= 4 bytes) and decompress is called exactly when it is >= version; the typestate holds on return'}@*/
 /*@unit {'name':'c16_move_ctor', 'props':['C16'], 'entry':'h_move_ctor', 'enforce':'Table_move_ctor',
          'claims':'Table(Table&&): the new table takes over pointer, size, face and the ownership flag; the source is left empty (its _p == 0), so exactly one of them will release'}@*/
